@@ -10,7 +10,10 @@ META = {
         "XferManager._handle_send_xfer_packet and TransferManager._handle_transfer_packet - the arriving packet is filed under its own "
         "number (packet 0 minus the 4-byte size hint), only the end marker sets the expected count (its number + 1), the transfer is "
         "marked done iff it was not done and the number of stored chunks equals the expected count, without turbo exactly that packet is "
-        "acknowledged. "
+        "acknowledged. Mesh vertex weights (the one hand-written framing of the mesh codec), on the real BufferWriter/BufferReader "
+        "bodies: VertexWeights.serialize writes 3 bytes per record plus a closing 0xFF exactly when there are fewer than four records "
+        "(more than four is rejected); VertexWeights.deserialize returns n <= 4 records and consumes 3n bytes plus the closing byte "
+        "iff n < 4 - the same count (lemma). "
         "B (bounded, NOT proved): inventory models in {line format, legacy LLSD, AIS LLSD} at node and model level with every enum "
         "member and optional-field combination; animations (both layout versions), mesh assets (LOD subsets, skin, physics, weights); "
         "Xfer and Transfer reassembly for payload sizes around every chunk boundary (1-5 chunks) x all arrival sequences with "
@@ -26,6 +29,8 @@ META = {
 def register(reg):
     c20_contracts.register_p(reg, PID)
     c20b_contracts.register_p2(reg, PID)
+    from contracts import c20c_contracts
+    c20c_contracts.register_p3(reg, PID)
 
 
 BOUNDED = [c20_native.bounded_inventory, c20_native.bounded_animations, c20_native.bounded_meshes, c20_native.bounded_transfers]
